@@ -599,7 +599,7 @@ def run(ctx):
             one = [s for s in ss if s.meta["what"] == "comment" and s.fail]
             if one:
                 for s in one[:3]:
-                    if s.meta["edit"].get("mlc") and str(s.meta.get("site", "other:")).startswith("other:"):
+                    if s.meta["edit"].get("mlc") and s.meta.get("site") != "around-else":
                         s.meta["site"] = "multiline-block:" + s.meta["edit"]["mlc"]
                     report(c, "%s:comment:%s" % (c.lang, s.meta.get("site", "?")),
                            " (isolated: the single %s comment %r between `%s` and `%s` gives %s)" % (
